@@ -4,6 +4,7 @@ import (
 	"fmt"
 	"github.com/LemoFoundationLtd/lemochain-core/common"
 	"github.com/LemoFoundationLtd/lemochain-core/common/log"
+	"github.com/LemoFoundationLtd/lemochain-core/common/verifhook"
 	"github.com/LemoFoundationLtd/lemochain-core/store/leveldb"
 	"path/filepath"
 )
@@ -73,6 +74,7 @@ func (db *SyncFileDB) start(Done chan *Inject, Err chan *Inject) {
 		case <-db.Quit:
 			return
 		case writeOp := <-db.WriteChan:
+			verifhook.Yield("store.SyncFileDB.start:before-put")
 			err := db.put(writeOp.Flg, writeOp.Key, writeOp.Val)
 			if err != nil {
 				log.Errorf("bitcask put data err: %s, flg: %d, key: %s", err.Error(), writeOp.Flg, common.ToHex(writeOp.Key))
